@@ -128,11 +128,67 @@ Definition imageOK (w h : Z) (l : limits) : res (Z * Z) :=
               end
        end.
 
+(* ---- FlateDecode predictor stage: the row buffers ---- *)
+(* safemath.AddInt at Go int width 64 (exact or error, negative operands rejected: property C42) *)
+Definition addInt (a b : Z) : res Z :=
+  if (0 <=? a) && (0 <=? b) && (a + b <=? maxInt64) then Ok (a + b) else Err.
+
+(* flateDecode.go predictorRowParams: Ok (rowSize, rowLen, bytesPerPixel) *)
+Definition predictorRowParams (predictor colors bpc columns : Z) : res (Z * Z * Z) :=
+  match mul64 bpc colors with Err => Err | Ok bitsPerPixel =>
+  match addInt bitsPerPixel 7 with Err => Err | Ok bppRounded =>
+  match mul64 bitsPerPixel columns with Err => Err | Ok rowBits =>
+  match addInt rowBits 7 with Err => Err | Ok rowBitsRounded =>
+    let rowSize := rowBitsRounded / 8 in
+    if predictor =? 2 then Ok (rowSize, rowSize, bppRounded / 8)      (* PredictorTIFF: no row filter byte *)
+    else match addInt rowSize 1 with Err => Err | Ok rowLen => Ok (rowSize, rowLen, bppRounded / 8) end
+  end end end end.
+
+(* flateDecode.go validatePredictor / flate.parameters (None = entry absent from /DecodeParms) *)
+Definition validPredictor (p : Z) : bool := (p =? 2) || ((10 <=? p) && (p <=? 15)).
+Definition flateParameters (colors bpc columns : option Z) : res (Z * Z * Z) :=
+  let oc := match colors with Some c => if c <=? 0 then None else Some c | None => Some 1 end in
+  let ob := match bpc with
+            | Some b => if (b =? 1) || (b =? 2) || (b =? 4) || (b =? 8) || (b =? 16) then Some b else None
+            | None => Some 8 end in
+  let ocol := match columns with Some c => if c <=? 0 then None else Some c | None => Some 1 end in
+  match oc, ob, ocol with Some c, Some b, Some col => Ok (c, b, col) | _, _, _ => Err end.
+
+Inductive rowres := RPassThru | RErr | RErrLimit | RAlloc (rowSize rowLen : Z).
+
+(* flateDecode.go decodePostProcess up to the allocation in decodePostProcessRows
+   (cr, pr := make([]byte, rowLen) twice; the output grows by rowSize per row).
+   maxLen is the DecodeLength argument (-1 = full decode, >= 0 = partial decode, e.g. the object stream
+   prolog): the row pre-check uses decodeLimit(-1), i.e. it does NOT depend on maxLen — the parameter is
+   kept so that the theorem speaks about both decode modes and K drives both. *)
+Definition rowGuard (mdb : Z) (predictor colors bpc columns : option Z) (maxLen : Z) : rowres :=
+  match predictor with
+  | None => RPassThru
+  | Some p =>
+    if p =? 1 then RPassThru
+    else if negb (validPredictor p) then RErr
+    else match flateParameters colors bpc columns with
+         | Err => RErr
+         | Ok (c, b, col) =>
+           match predictorRowParams p c b col with
+           | Err => RErr
+           | Ok (rs, rl, _) =>
+             let limit := decodeLimit mdb (-1) in
+             if (0 <=? limit) && (limit <? rl) then RErrLimit else RAlloc rs rl
+           end
+         end
+  end.
+
 (* ---- decode call sites (table produced by go/cmd/genc09 into Generated.v) ---- *)
 (* LField: the limit is read from a struct field X.MaxDecodeBytes (LazyObjectStreamObject.GetData reads
    osd.MaxDecodeBytes); what it holds is decided by the constructions of that struct (second table) *)
 Inductive limit_kind := LConfigured | LDefault | LField.
-Record site := mksite { s_file : string; s_func : string; s_call : string; s_kind : limit_kind }.
+(* decode mode of the call: MFull = the whole stream (maxLen = -1), MPartial = DecodeLength with a maxLen
+   expression (object stream prolog, image headers ...); MNone for NewFilter / struct literals *)
+Inductive decode_mode := MFull | MPartial | MNone.
+Record site := mksite { s_file : string; s_func : string; s_call : string; s_kind : limit_kind;
+                        s_mode : decode_mode }.
+Definition is_partial (s : site) : bool := match s_mode s with MPartial => true | _ => false end.
 
 Definition is_configured (s : site) : bool :=
   match s_kind s with LConfigured => true | LDefault => false | LField => true end.
